@@ -125,6 +125,7 @@ func sends[T any](ch chan T) int { return 0 }
 //@      !a.useInterleaving && a.useForwardTSN && arg1 == chunkTSN.newCumulativeTSN && arg1 != a.payloadQueue.cumulativeTSN && !specSerLT32(arg1, a.payloadQueue.cumulativeTSN)
 //@   at call Stream.handleForwardTSNForUnordered assert#purge-up-to-the-forwarded-tsn{C07} arg1 == chunkTSN.newCumulativeTSN
 //@   loop 1 complete{C07}
+//@   loop 1 atend assert#every-listed-stream-has-its-cursor-advanced{C07} a.streams[forwarded.identifier] != nil
 //@   loop 2 complete{C07}
 
 //@ func Association.handleIForwardTSN
@@ -133,6 +134,7 @@ func sends[T any](ch chan T) int { return 0 }
 //@   at call receivePayloadQueue.advanceCumulativeTSN assert#only-as-negotiated-and-forward{C17,C05,C07,C03}
 //@      a.useIForwardTSN && arg1 == chunkTSN.newCumulativeTSN && arg1 != a.payloadQueue.cumulativeTSN && !specSerLT32(arg1, a.payloadQueue.cumulativeTSN)
 //@   loop 1 complete{C07}
+//@   loop 1 atend assert#every-listed-stream-has-its-cursor-advanced{C07} a.streams[forwarded.identifier] != nil
 
 //@ func Association.handleInit
 //@   at store Association.peerInterleaving@1 assert#peer-flags-reset-before-parsing{C17,C04} !stored
@@ -178,3 +180,10 @@ func sends[T any](ch chan T) int { return 0 }
 //@ func Association.createForwardTSN
 //@   at mapupdate streamMap assert#only-ordered-streams-are-listed{C07} !c.unordered && key == c.streamIdentifier && stored == c.streamSequenceNumber
 //@   ensures#new-cumulative-tsn{C07} result != nil && result.newCumulativeTSN == a.advancedPeerTSNAckPoint
+
+//@ func Association.createStream
+//@   ensures#registered{C07,C14} result != nil ==> a.streams[streamIdentifier] == result && result.streamIdentifier == streamIdentifier && isNew(result)
+//@   ensures#accept-queue-has-room{TRUSTED} result != nil
+//@ func Association.getOrCreateStream
+//@   ensures#exists-afterwards{C07,C14} result != nil ==> a.streams[streamIdentifier] == result
+//@   ensures#never-refused{TRUSTED} result != nil
